@@ -59,10 +59,18 @@ class NewTypeTypeHint(ClassTypeHint):
             # cached; the "_TypeHintMetaclass" metaclass guarantees this
             # __init__() method to be called exactly once for each "NewType"
             # type hint.
-            self._origin = make_type(
-                type_name=hint_name,
-                type_bases=(hint_embedded,),  # type: ignore[arg-type]
-            )
+            #
+            # Note that some classes are unsubclassable (e.g., "bool",
+            # "NoneType"). Attempting to subclass these classes raises a
+            # non-human-readable "TypeError". In this case, fall back to
+            # treating this new type as this class itself.
+            try:
+                self._origin = make_type(
+                    type_name=hint_name,
+                    type_bases=(hint_embedded,),  # type: ignore[arg-type]
+                )
+            except TypeError:
+                self._origin = hint_embedded
         # Else, this non-new type hint is a non-class (e.g., "Any"). In this
         # case, preserve this non-class as is.
         else:
